@@ -133,10 +133,12 @@ func (s *Store) deleteAndOptionalCloseParent(parent string, closeChannel bool) e
 	// if parent not in map, no error - already gone
 	if children, ok := s.ChildrenByParent[parent]; ok {
 
-		for _, ch := range children {
+		for child, ch := range children {
 			if closeChannel {
 				close(ch)
 			}
+			// keep ParentByChild consistent, else a later DeleteChild stores a nil map for this parent
+			delete(s.ParentByChild, child)
 		}
 
 		delete(s.ChildrenByParent, parent)
